@@ -87,6 +87,7 @@ class Fn:
         self.has_while = False
         self.nloop = 0
         self.tail_var = None
+        self.loop_stack = []
         self.idents = cfg.get("idents", {})      # rust identifier -> lean term
         self.fields = cfg.get("fields", {})      # rust field -> lean field
         self.effects = cfg.get("effects", {})    # statement-level calls with side effects on the modelled world
@@ -398,6 +399,9 @@ class Fn:
             self.eat()
             return "_", []
         mut = False
+        if re.match(r"^\d+$", tok or ""):
+            self.eat()
+            return tok, []
         if tok == "mut":
             self.eat()
             mut = True
@@ -595,20 +599,29 @@ class Fn:
                 it = self.expr()
                 out.append(f"{pad}for {pat} in {it} do")
                 out += self.block(ind + 2)
-            elif tok == "while":
+            elif tok in ("while", "loop"):
                 self.eat()
                 self.has_while = True
                 self.nloop += 1
                 fin = f"fin{self.nloop}"
-                c = self.expr()
                 out.append(f"{pad}let mut {fin} := false")
                 out.append(f"{pad}for _ in List.replicate fuel () do")
-                out.append(f"{pad}  if !{c} then")
-                out.append(f"{pad}    {fin} := true")
-                out.append(f"{pad}    break")
+                if tok == "while":
+                    c = self.expr()
+                    out.append(f"{pad}  if !{c} then")
+                    out.append(f"{pad}    {fin} := true")
+                    out.append(f"{pad}    break")
+                self.loop_stack.append(fin)
                 out += self.block(ind + 2)
+                self.loop_stack.pop()
                 out.append(f"{pad}if !{fin} then")
                 out.append(f"{pad}  return none")
+            elif tok == "break" and self.loop_stack:
+                # leaving a fuel loop by `break` is an orderly end of the loop (not an exhausted fuel)
+                self.eat()
+                self.eat(";")
+                out.append(f"{pad}{self.loop_stack[-1]} := true")
+                out.append(f"{pad}break")
             elif tok == "if":
                 out += self.if_(ind)
             elif tok == "match":
@@ -680,10 +693,21 @@ class Fn:
                 out.append(f"{pad}  return {self.ret(e)}")
             elif self.peek() == "match":
                 out += self.match_(ind + 2)
+            elif self.peek() == "break" and self.loop_stack:
+                self.eat()
+                out.append(f"{pad}  {self.loop_stack[-1]} := true")
+                out.append(f"{pad}  break")
             elif self.tail_var:
                 out.append(f"{pad}  {self.tail_var} := {self.expr()}")
             else:
-                raise TranslateError("match arm that is neither a block nor a return")
+                lv = self.expr()
+                if self.peek() not in ("=", "+=", "-="):
+                    raise TranslateError("match arm that is neither a block, a return, a break nor an assignment")
+                op = self.eat()
+                rhs = self.expr()
+                if op != "=":
+                    rhs = f"{lv} {op[0]} {rhs}"
+                out.append(f"{pad}  " + self.lvalue_assign(lv, rhs))
             if self.peek() == ",":
                 self.eat()
         self.eat("}")
@@ -851,6 +875,22 @@ FUNCS = [
          expr_body=True, structs=("Self",), fields={"weak_hash": "weak", "strong_hash": "strong"},
          calls={}, paths={"RollingChecksum::new": "Copia.Checksum.Rolling.new", "StrongHash::compute": "H"},
          methods={"digest": lambda r, a: f"{r}.digest"}),
+    dict(group="delta", file="src/async_sync.rs", fn="signature", sig=None, option=True,
+         name="AsyncCopiaSync::signature (from `let mut blocks = Vec::new();` to the end of the `loop`)",
+         slice=("let mut blocks = Vec::new();", "index = index.saturating_add(1);"), slice_close=1,
+         lean="def signatureAsync {D : Type} (H : List Nat → D) (fuel : Nat) (block_size : Nat) (reader0 : Reader) :\n"
+              "    Option (Nat × List (BlockSig D)) := Id.run do\n"
+              "  -- world: the reader (what it still holds, and how many bytes each coming `read` is willing to hand out); `buffer` is\n"
+              "  -- modelled by its FILLED prefix (the only part `&buffer[..bytes_read]` looks at)\n"
+              "  let mut reader := reader0",
+         epilogue=["return (some (file_size, blocks))"],
+         calls={}, paths={"Vec::new": "[]", "BlockSignature::compute": "blockCompute H"},
+         methods={"saturating_add": lambda r, a: f"(min ({r} + {a[0]}) 4294967295)"},
+         match_effects={"reader.read(&mut buffer[bytes_read..]).await?":
+                        ("let rd := readInto reader (block_size - bytes_read)\nreader := rd.2\nbuffer := buffer.take bytes_read ++ rd.1", "rd.1.length")},
+         verbatim=[("let mut buffer = vec![0u8; block_size];", "let mut buffer : List Nat := []"),
+                   ("let mut bytes_read = 0;", "let mut bytes_read : Nat := 0"),
+                   ("let data = &buffer[..bytes_read];", "let data := buffer.take bytes_read")]),
     dict(group="delta", file="src/signature.rs", fn="generate", sig=None, name="generate (the block list: `let blocks = if … else …;`)",
          slice=("let blocks: Vec<BlockSignature> = if", "let expected_blocks"), slice_until=True,
          lean="def generateBlocks {D : Type} (H : List Nat → D) (block_size : Nat) (data : List Nat) : List (BlockSig D) := Id.run do",
